@@ -89,8 +89,26 @@ def gen_case(rng, tier, i):
         aname = axis[0]
         n = layout.axis(aname)["n"]
         metric = [float(2 ** rng.randint(-2, 3)) for _ in range(n)]
-    return {"kind": kind, "layout": {"axes": layout.axes, "extra": layout.extra}, "ctor": ctor,
+    case = {"kind": kind, "layout": {"axes": layout.axes, "extra": layout.extra}, "ctor": ctor,
             "dims": [d for d, _ in dims], "data": data.tolist(), "call": call, "metric": metric}
+    r = rng.random()
+    if kind in ("cumsum", "cumint") and r < (0.08 if kind == "cumsum" else 0.25):
+        case["dtype"] = "int64"            # integer-typed data with integral fill values (see c01)
+        case["data"] = np.round(data).tolist()
+
+        def integral(v):
+            if isinstance(v, dict):
+                return {k: float(round(x)) for k, x in v.items()}
+            return v if v is None else float(round(v))
+        for kw in (ctor, call):
+            if "fill_value" in kw:
+                kw["fill_value"] = integral(kw["fill_value"])
+    elif kind == "cumsum" and r < 0.16:
+        case["dtype"] = "float32"
+    elif kind == "cumint" and r < 0.35:
+        case["dtype"] = "bool"             # a mask: cumint accumulates the metric over the wet cells
+        case["data"] = (np.asarray(data) > 0).astype(float).tolist()
+    return case
 
 
 def _steps(case):
@@ -134,7 +152,8 @@ def eval_case(case, drv):
         ds["dx"] = (cdim, np.array(case["metric"], dtype=float))
         gkw["metrics"] = {(aname,): ["dx"]}
     grid = xgcm.Grid(ds, coords=layout.coords_arg(), autoparse_metadata=False, **copy.deepcopy(gkw))
-    da = xr.DataArray(np.array(case["data"], dtype=float).reshape([ds.sizes[d] for d in case["dims"]]),
+    da = xr.DataArray(np.array(case["data"], dtype=float).reshape([ds.sizes[d] for d in case["dims"]]).astype(
+        case.get("dtype", "float64")),
                       dims=case["dims"], name="phi")
     kwargs = {k: copy.deepcopy(call[k]) for k in ("to", "boundary", "fill_value") if call.get(k) is not None}
     gaxes = grid_axes_for_driver(grid)
